@@ -144,3 +144,50 @@ Fixpoint residuals_close (tol : Q) (a b : list vec) : bool :=
   | x :: a', y :: b' => close tol x y && residuals_close tol a' b'
   | _, _ => false
   end.
+
+(* ---------------------------------------------------------------------------------------------- *)
+(* non-unit prior metric (classic SamplingEnabler / WienerFilterCurvature with S != 1): the sampled
+   residual must have covariance (J^T N^-1 J + S^-1)^-1; `sinv` = diagonal of the prior metric *)
+Definition factor_ok_prior (tol : Q) (k : nat) (R Qm Ninv : mat) (p sinv : vec) (T : mat) : bool :=
+  cov_check tol (length p) k (curvature (length p) (jac R Qm p) Ninv sinv) T.
+
+(* ---------------------------------------------------------------------------------------------- *)
+(* nifty/re/evi.py: class Samples (flattened leaves).
+     samples:      pos[None] + _samples          (or _samples if pos is None)
+     at(pos, old_pos=None):
+         if self.pos is not None and old_pos is None:  smpls = self._samples
+         elif old_pos is not None:                     smpls = self.samples - old_pos[None]
+         else: raise ValueError
+         return Samples(pos=pos, samples=smpls, keys=self.keys)
+     squeeze(): merge the two leading axes of _samples                                              *)
+Record jsmp := { jpos : option vec; jres : list vec }.
+
+Definition jsamples (s : jsmp) : list vec :=
+  match jpos s with Some p => map (vadd p) (jres s) | None => jres s end.
+
+Definition jat (s : jsmp) (new : vec) (old : option vec) : option jsmp :=
+  match old with
+  | None => match jpos s with
+            | Some _ => Some {| jpos := Some new; jres := jres s |}
+            | None => None
+            end
+  | Some q => Some {| jpos := Some new; jres := map (fun x => vsub x q) (jsamples s) |}
+  end.
+
+Definition jsqueeze (pos : option vec) (res2 : list (list vec)) : jsmp :=
+  {| jpos := pos; jres := concat res2 |}.
+
+Fixpoint lveqb (a b : list vec) : bool :=
+  match a, b with
+  | [], [] => true
+  | x :: a', y :: b' => veqb x y && lveqb a' b'
+  | _, _ => false
+  end.
+
+(* observed: position, residual leaves and absolute samples of the object returned by `at` *)
+Definition jat_ok (s : jsmp) (new : vec) (old : option vec) (opos : vec) (ores osmp : list vec) : bool :=
+  match jat s new old with
+  | Some t => match jpos t with Some p => veqb p opos | None => false end
+              && lveqb (jres t) ores && lveqb (jsamples t) osmp
+  | None => false
+  end.
